@@ -211,7 +211,7 @@ Definition set_failed (runid : Z) (w : world) (r : row) : row :=
 
 Definition set_static (runid : Z) (w : world) (r : row) : row :=
   let r1 := update_stamp runid w r in
-  upd_row r1 false false (r_checked r1) (r_changed r1) None (r_stamp r1) (r_csum r1).
+  upd_row r1 false false (r_checked r1) (r_changed r1) None (r_stamp r1) None.   (* a source has no checksum (fix F31) *)
 
 Definition set_override (runid : Z) (w : world) (r : row) : row :=
   let r1 := update_stamp runid w r in
